@@ -697,7 +697,27 @@ class Controller:
             )
 
         if not advertiser:
-            # This is not send to us.
+            # This is not sent to us, or it is sent to one of our advertisers that has
+            # stopped in the meantime (another initiator was connected first). In that
+            # case the initiator has already reported a connection to its host: tell
+            # it that the connection could not be established.
+            if self.link and (
+                self.le_legacy_advertiser.address == packet.advertiser_address
+                or any(
+                    advertising_set.address == packet.advertiser_address
+                    for advertising_set in self.advertising_sets.values()
+                )
+            ):
+                try:
+                    self.link.send_ll_control_pdu(
+                        sender_address=packet.advertiser_address,
+                        receiver_address=packet.initiator_address,
+                        packet=ll.TerminateInd(
+                            hci.HCI_ErrorCode.CONNECTION_FAILED_TO_BE_ESTABLISHED_ERROR
+                        ),
+                    )
+                except InvalidArgumentError:
+                    logger.debug('initiator is no longer on the link')
             return
 
         # Allocate (or reuse) a connection handle
